@@ -122,6 +122,9 @@ func Requests(sp *spec.Spec, svc *spec.Service, m *spec.Method, tag string) []Re
 		res := spec.Obj{"aa": "aa-" + tag, "bb": int64(len(tag) + 5)}
 		add(Request{Label: "accept:json", Payload: spec.Obj{"acc": "application/json"}, Result: res})
 		add(Request{Label: "accept:xml", Payload: spec.Obj{"acc": "application/xml"}, Result: res})
+		add(Request{Label: "accept:gob", Payload: spec.Obj{"acc": "application/gob"}, Result: res})
+		add(Request{Label: "accept:text/plain", Payload: spec.Obj{"acc": "text/plain"}, Result: res})
+		add(Request{Label: "accept:text/html", Payload: spec.Obj{"acc": "text/html"}, Result: res})
 		add(Request{Label: "accept:xml undeclared-plain", Payload: spec.Obj{"acc": "application/xml"}, Err: "plain"})
 	case "skip-request-body":
 		p := spec.Obj{"id": "id-" + tag, "hh": "hh-" + tag}
